@@ -84,13 +84,31 @@ pub fn materialise(root: &Path, l: &[(String, Vec<u8>)]) {
     }
 }
 
-/// Run `f` with file descriptor 1 pointing at /dev/null (the crate prints a diagnostic
-/// with println! when the final move/compress fails; stdout is the result channel).
+/// Run `f` with file descriptor 1 pointing at /dev/null or at a broken pipe (the crate prints a diagnostic
+/// when the final move/compress fails; the harness's result channel is a duplicate made at start-up).
 pub fn silenced<T>(f: impl FnOnce() -> T) -> T {
     use std::os::unix::io::AsRawFd;
+    // What a case does not say and must not matter: what the process's standard output is.  Every third call it
+    // is a pipe nobody reads any more (`service | logger` after the logger died: a write fails with EPIPE), else
+    // /dev/null.
+    static TURN: std::sync::atomic::AtomicUsize = std::sync::atomic::AtomicUsize::new(0);
+    let broken = TURN.fetch_add(1, std::sync::atomic::Ordering::SeqCst) % 3 == 1;
     let devnull = fs::OpenOptions::new().write(true).open("/dev/null").expect("devnull");
     let saved = unsafe { libc::dup(1) };
-    unsafe { libc::dup2(devnull.as_raw_fd(), 1) };
+    if broken {
+        let mut fds = [0i32; 2];
+        if unsafe { libc::pipe(fds.as_mut_ptr()) } == 0 {
+            unsafe {
+                libc::close(fds[0]);
+                libc::dup2(fds[1], 1);
+                libc::close(fds[1]);
+            }
+        } else {
+            unsafe { libc::dup2(devnull.as_raw_fd(), 1) };
+        }
+    } else {
+        unsafe { libc::dup2(devnull.as_raw_fd(), 1) };
+    }
     let r = std::panic::catch_unwind(std::panic::AssertUnwindSafe(f));
     unsafe {
         libc::dup2(saved, 1);
